@@ -103,6 +103,9 @@ func (i *interpreter) mapFind(m *omap, kt types.Type, k value) int {
 	if m == nil {
 		return -1
 	}
+	if i.race != nil && i.race.on && !i.inMapWrite && !i.inSyncMap {
+		i.raceAccess(m, false, false)
+	}
 	k = normKey(k)
 	if m.symKeys == 0 && !hasSym(k) {
 		h := hash(kt, kt, k)
@@ -129,6 +132,11 @@ func (i *interpreter) mapFind(m *omap, kt types.Type, k value) int {
 func (i *interpreter) mapInsert(m *omap, kt types.Type, k, v value) {
 	k = normKey(k)
 	i.touchMap(m)
+	if i.race != nil && i.race.on && !i.inSyncMap {
+		i.raceAccess(m, true, false)
+	}
+	i.inMapWrite = true
+	defer func() { i.inMapWrite = false }()
 	if ix := i.mapFind(m, kt, k); ix >= 0 {
 		m.entries[ix].val = v
 		return
@@ -149,6 +157,9 @@ func (i *interpreter) mapDelete(m *omap, kt types.Type, k value) {
 		return
 	}
 	i.touchMap(m)
+	if i.race != nil && i.race.on && !i.inSyncMap {
+		i.raceAccess(m, true, false)
+	}
 	e := &m.entries[ix]
 	e.dead = true
 	m.n--
